@@ -31,6 +31,9 @@ type Spec struct {
 	Files    []*File  `json:"files"`
 	Generate []string `json:"generate,omitempty"` // default: every file of the spec
 	Tags     []string `json:"tags,omitempty"`
+	// PerPackage: the sebuf plugins are invoked once per proto package (file_to_generate = that package's files, the others
+	// only as dependencies of the request) - the way protoc / buf invoke a plugin for a multi-package module - instead of once
+	PerPackage bool `json:"per_package,omitempty"`
 }
 
 type File struct {
@@ -228,6 +231,30 @@ func (s *Spec) GenerateList() []string {
 	var out []string
 	for _, f := range s.Files {
 		out = append(out, f.Path)
+	}
+	return out
+}
+
+// Invocations returns the file_to_generate list of every plugin invocation of the spec.
+func (s *Spec) Invocations() [][]string {
+	if !s.PerPackage {
+		return [][]string{s.GenerateList()}
+	}
+	pkgOf := map[string]string{}
+	for _, f := range s.Files {
+		pkgOf[f.Path] = f.Package
+	}
+	var order []string
+	by := map[string][]string{}
+	for _, p := range s.GenerateList() {
+		if _, ok := by[pkgOf[p]]; !ok {
+			order = append(order, pkgOf[p])
+		}
+		by[pkgOf[p]] = append(by[pkgOf[p]], p)
+	}
+	var out [][]string
+	for _, k := range order {
+		out = append(out, by[k])
 	}
 	return out
 }
